@@ -37,20 +37,38 @@ sys.path.insert(0, os.path.dirname(os.path.abspath(__file__)))
 import verilog_gen as G      # noqa: E402
 import verilog_known as K    # noqa: E402
 
-MODULES = ["Spydr.Verilog.Model", "Spydr.Verilog.Spec", "Spydr.Verilog.Lemmas", "Spydr.Verilog.LemmasEmit",
-           "Spydr.Verilog.LemmasOrder", "Spydr.Verilog.Props.C06", "Spydr.Verilog.Props.C04"]
+MODULES = ["Spydr.Verilog.Model", "Spydr.Verilog.ModelElab", "Spydr.Verilog.ModelText", "Spydr.Verilog.Spec",
+           "Spydr.Verilog.Lemmas", "Spydr.Verilog.LemmasEmit", "Spydr.Verilog.LemmasOrder", "Spydr.Verilog.LemmasElab",
+           "Spydr.Verilog.Props.C06",
+           "Spydr.Verilog.Props.C04"]
 THEOREMS = {
     "C06": ["Spydr.Verilog.getWires_spec", "Spydr.Verilog.getWires_spec_single_all", "Spydr.Verilog.concat_spec",
             "Spydr.Verilog.connect_low_aligned", "Spydr.Verilog.connect_low_aligned_fresh",
             "Spydr.Verilog.lowAligned_bit", "Spydr.Verilog.connect_too_wide", "Spydr.Verilog.resize_stable",
             "Spydr.Verilog.resize_keeps_index", "Spydr.Verilog.resize_port_stable",
-            "Spydr.Verilog.verilog_reader_spec_partial"],
+            "Spydr.Verilog.verilog_reader_spec_partial", "Spydr.Verilog.connect_assign_spec",
+            "Spydr.Verilog.connect_alias_spec", "Spydr.Verilog.elab_connection_spec"],
     "C04": ["Spydr.Verilog.emit_eval", "Spydr.Verilog.emit_eval_spec", "Spydr.Verilog.decl_range_roundtrip",
             "Spydr.Verilog.alias_header_roundtrip", "Spydr.Verilog.assign_regen", "Spydr.Verilog.assign_regen_all",
             "Spydr.Verilog.write_order_defined", "Spydr.Verilog.visit_order_defined",
             "Spydr.Verilog.verilog_roundtrip_partial",
             "Spydr.Verilog.connect_low_aligned", "Spydr.Verilog.getWires_spec"],
 }
+
+
+class VShard(ShardResult):
+    """divergences that are the direct effect of an open finding are kept twice per (obligation, finding) at most,
+    so that they cannot crowd a new divergence out of the 20 slots a shard result carries"""
+
+    def corr_mismatch(self, what, inp, impl=None, model=None, signature=None):
+        if signature is not None:
+            seen = self.__dict__.setdefault("_corr_seen", {})
+            k = (what, signature)
+            seen[k] = seen.get(k, 0) + 1
+            if seen[k] > 2:
+                return
+        if signature is None or len(self["corr"]) < 14:
+            ShardResult.corr_mismatch(self, what, inp, impl, model, signature)
 
 
 def fam(e):
@@ -383,6 +401,159 @@ def corr_c06_connections(res, drv, design, v, known_sig):
     return n
 
 
+def design_ast(design):
+    """the abstract syntax tree the Lean elaboration reads (token order of the text)"""
+    out = []
+    for m in design["modules"]:
+        header = []
+        for p in m["ports"]:
+            if p["alias"] is not None:
+                e = {"cat": [["id", a] for a in p["alias"]]} if p.get("alias_braces", True) else ["id", p["alias"][0]]
+                header.append({"n": p["name"], "dir": None, "rng": None, "alias": {"e": e}})
+            elif m["style"] == "ansi":
+                header.append({"n": p["name"], "dir": p["dir"],
+                               "rng": [p.get("lsb", 0) + p["w"] - 1, p.get("lsb", 0)] if p["ranged"] else None, "alias": None})
+            else:
+                header.append({"n": p["name"], "dir": None, "rng": None, "alias": None})
+        items = []
+        for d in m["decl_order"]:
+            if d[0] == "wire":
+                w = m["wires"][d[1]]
+                items.append({"t": "wire", "ty": w["type"], "rng": [w["msb"], w["lsb"]] if w["ranged"] else None,
+                              "n": w["name"], "attrs": w["attrs"]})
+            elif d[0] == "port":
+                p = m["ports"][d[1]]
+                items.append({"t": "port", "dir": p["dir"], "vt": p["vtype"],
+                              "rng": [p.get("lsb", 0) + p["w"] - 1, p.get("lsb", 0)] if p["ranged"] else None, "n": p["name"]})
+            else:
+                p = m["ports"][d[1]]
+                items.append({"t": "port", "dir": p["dir"], "vt": None, "rng": None, "n": p["alias"][d[2]]})
+        for it in m["body"]:
+            if it["t"] == "assign":
+                items.append({"t": "assign", "l": it["l"], "r": it["r"]})
+            else:
+                items.append({"t": "inst", "mod": it["mod"], "n": it["name"], "params": it["params"], "attrs": it["attrs"],
+                              "named": it["map"] == "named", "conns": it["conns"]})
+        out.append({"name": m["name"], "prim": m["kind"] == "prim", "attrs": m["attrs"], "params": m["params"],
+                    "header": header, "items": items})
+    return out
+
+
+def _canon_insts(insts, ref_ports):
+    """assign instances: the pin order inside `o`/`i` is not part of C06 (the statement documents the joined bits,
+    the unrepaired reader counts from the MSB, the repaired one from the LSB): compared as pairs (o bit, i bit)"""
+    out = []
+    for name, ref, params, attrs, pins in insts:
+        if ref.startswith("SDN_VERILOG_ASSIGNMENT_") and len(pins) == 2 and ref_ports.get(ref) == ["i", "o"]:
+            pins = ["assign-pairs", sorted(([o, i] for o, i in zip(pins[1], pins[0])), key=repr)]
+        out.append([name, ref, params, attrs, pins])
+    return out
+
+
+def canon_impl_view(v):
+    defs = []
+    for name in sorted(v["defs"]):
+        D = v["defs"][name]
+        defs.append({
+            "name": name, "lib": D["lib"], "primitive": bool(D["data"].get("VERILOG.primitive")),
+            "params": D["data"].get("VERILOG.Parameters") or {}, "attrs": D["data"].get("VERILOG.InlineConstraints") or {},
+            "ports": [[p["name"], p["dir"], p["lower"], p["width"], p["downto"], p["pins"]] for p in D["ports"]],
+            "cables": [[c["name"], c["lower"], c["width"], c["downto"], c["data"].get("VERILOG.CableType"),
+                        c["data"].get("VERILOG.InlineConstraints")] for c in D["cables"]],
+            "insts": _canon_insts([[i["name"], i["ref"], i["data"].get("VERILOG.Parameters") or {},
+                                    i["data"].get("VERILOG.InlineConstraints"), i["pins"]] for i in D["insts"]],
+                                  {n: [p["name"] for p in X["ports"]] for n, X in v["defs"].items()})})
+    return {"top": v["top"], "defs": defs}
+
+
+def canon_model_view(mv):
+    defs = []
+    for D in sorted(mv["defs"], key=lambda d: d["name"]):
+        defs.append({
+            "name": D["name"], "lib": D["lib"], "primitive": D["primitive"], "params": dict(D["params"]),
+            "attrs": dict(D["attrs"]) if D["attrs"] else {},
+            "ports": [[p["name"], p["dir"], p["lower"], p["width"], p["downto"], p["pins"]] for p in D["ports"]],
+            "cables": [[c["name"], c["lower"], c["width"], c["downto"], c["ctype"],
+                        None if c["attrs"] is None else dict(c["attrs"])] for c in D["cables"]],
+            "insts": _canon_insts([[i["name"], i["ref"], dict(i["params"]), None if i["attrs"] is None else dict(i["attrs"]),
+                                    i["pins"]] for i in D["insts"]],
+                                  {X["name"]: [p["name"] for p in X["ports"]] for X in mv["defs"]})})
+    return {"top": mv["top"], "defs": defs}
+
+
+def ports_sorted(cv):
+    """the canonical view with every definition's ports (and the pin rows of its instances) sorted by name"""
+    order = {}
+    for D in cv["defs"]:
+        order[D["name"]] = sorted(range(len(D["ports"])), key=lambda i: repr(D["ports"][i][0]))
+    out = {"top": cv["top"], "defs": []}
+    for D in cv["defs"]:
+        E2 = dict(D)
+        E2["ports"] = [D["ports"][i] for i in order[D["name"]]]
+        insts = []
+        for name, ref, params, attrs, pins in D["insts"]:
+            if isinstance(pins, list) and pins and pins[0] == "assign-pairs":
+                insts.append([name, ref, params, attrs, pins])
+            elif ref in order and len(pins) == len(order[ref]):
+                insts.append([name, ref, params, attrs, [pins[i] for i in order[ref]]])
+            else:
+                insts.append([name, ref, params, attrs, pins])
+        E2["insts"] = insts
+        out["defs"].append(E2)
+    return out
+
+
+def first_diff(a, b, path=""):
+    if type(a) != type(b):
+        return path, a, b
+    if isinstance(a, dict):
+        for k in sorted(set(a) | set(b), key=str):
+            if k not in a or k not in b:
+                return path + "/" + str(k), a.get(k, "<absent>"), b.get(k, "<absent>")
+            d = first_diff(a[k], b[k], path + "/" + str(k))
+            if d:
+                return d
+        return None
+    if isinstance(a, list):
+        if len(a) != len(b):
+            return path + "/len", len(a), len(b)
+        for i, (x, y) in enumerate(zip(a, b)):
+            d = first_diff(x, y, path + "/" + (str(x.get("name")) if isinstance(x, dict) and "name" in x else str(i)))
+            if d:
+                return d
+        return None
+    return None if a == b else (path, a, b)
+
+
+def corr_c06_elab(res, drv, design, v, raised, known_sig):
+    """the whole design: Lean `elabDesign` against sdn.parse (view or rejection)"""
+    o = drv.ask({"fn": "elab", "modules": design_ast(design)})
+    if "error" in o:
+        res.corr_mismatch("C06.elabDesign: driver understood the design", pack(design), None, o, signature=known_sig)
+        return
+    if not o["ok"]:
+        if raised is None:
+            res.corr_mismatch("C06.elabDesign vs sdn.parse (model rejects, reader accepts)", pack(design), "accepted", o["raise"],
+                              signature=known_sig)
+        return
+    if raised is not None:
+        res.corr_mismatch("C06.elabDesign vs sdn.parse (reader rejects, model accepts)", pack(design), raised, "accepted",
+                          signature=known_sig)
+        return
+    a, b = canon_impl_view(v), canon_model_view(o["view"])
+    d = first_diff(a, b)
+    if d and K.order_differs(design):
+        # sub-domain of the port-order finding: the order itself is the known divergence; everything else is compared
+        res.corr_mismatch("C06.elabDesign vs sdn.parse (port order)", pack(design), {"at": d[0], "impl": d[1]},
+                          {"at": d[0], "model": d[2]}, signature=K.SIG_POS_ORDER)
+        d = first_diff(ports_sorted(a), ports_sorted(b))
+        if known_sig == K.SIG_POS_ORDER and not K.pos_order_victims(design):
+            known_sig = None      # no positional map is affected: nothing but the order may differ
+    if d:
+        res.corr_mismatch("C06.elabDesign vs sdn.parse (view)", pack(design), {"at": d[0], "impl": d[1]}, {"at": d[0], "model": d[2]},
+                          signature=known_sig)
+
+
 # ----------------------------------------------------------------------------------------------
 # C06 shard
 # ----------------------------------------------------------------------------------------------
@@ -404,7 +575,7 @@ def gen_case(rng, pid):
 
 
 def shard_c06(seed, idx, n_cases, deadline):
-    res = ShardResult()
+    res = VShard()
     rng = random.Random(stable_hash(["verilog", "C06", seed, idx]))
     impl = Impl()
     drv = lean.Driver("drv_verilog")
@@ -429,6 +600,10 @@ def shard_c06(seed, idx, n_cases, deadline):
             if v is not None:
                 k = corr_c06_connections(res, drv, d, v, known or (trig[0] if trig else None))
                 res.dist("connections-compared", k)
+            raised = pr[0][0] if (pr and v is None) else None
+            corr_c06_elab(res, drv, d, v, raised, known or (trig[0] if trig else None) or K.corr_sig_c06(d))
+            res.dist("designs-elaborated-by-the-model")
+            corr_lex(res, drv, text, "generated text", pack(d, text))
     finally:
         drv.close()
         impl.close()
@@ -439,7 +614,7 @@ def shard_c06(seed, idx, n_cases, deadline):
 # direct drives of the reader's building blocks (correspondence with the bit-level model)
 # ----------------------------------------------------------------------------------------------
 def shard_blocks_reader(seed, idx, n_cases, deadline):
-    res = ShardResult()
+    res = VShard()
     rng = random.Random(stable_hash(["verilog", "blocks-reader", seed, idx]))
     import spydrnet as sdn
     from spydrnet.parsers.verilog.parser import VerilogParser
@@ -594,6 +769,8 @@ def eval_c04(impl, nl, v1, combo, rng, res=None):
     written = set(all_written if dlist is None else dlist)
     if not wb:
         written = {n for n in written if v1["defs"][n]["lib"] != "hdi_primitives"}
+    if res is not None:
+        res["_last_opts"] = (dlist, wb, dp)
     try:
         text2 = impl.compose(nl, dlist, wb, dp)
     except Exception as e:                                    # noqa: BLE001
@@ -895,6 +1072,89 @@ def expr_kind(e):
     return {"id": "whole", "bit": "bit", "part": "slice"}[e[0]]
 
 
+def wnet_of(nl):
+    """the netlist as the Lean writer model reads it (library order, dictionaries in insertion order)"""
+    import verilog_view as V
+
+    def attrs(e):
+        a = e._data.get("VERILOG.InlineConstraints")
+        if a is None:
+            return None
+        return [[str(k), None if v is None else str(v)] for k, v in a.items()]
+    defs = []
+    for lib in nl._libraries:
+        for d in lib._definitions:
+            pr = d._data.get("VERILOG.Parameters")
+            D = {"name": d.name, "lib": lib.name,
+                 "params": None if pr is None else [[str(k), None if v is None else str(v)] for k, v in pr.items()],
+                 "attrs": attrs(d), "ports": [], "cables": [], "insts": []}
+            for p in d._ports:
+                D["ports"].append({"name": p.name, "dir": V._dir(p), "lower": p._lower_index, "width": len(p._pins),
+                                   "pins": [V._bit_of_wire(q._wire) for q in p._pins], "attrs": attrs(p)})
+            for c in d._cables:
+                D["cables"].append({"name": c.name, "lower": c._lower_index, "width": len(c._wires),
+                                    "ctype": c._data.get("VERILOG.CableType"), "attrs": attrs(c)})
+            for k in d._children:
+                r = k._reference
+                ip = k._data.get("VERILOG.Parameters")
+                rows = []
+                if r is not None:
+                    for p in r._ports:
+                        rows.append([V._bit_of_wire(k._pins[q]._wire) if q in k._pins else None for q in p._pins])
+                D["insts"].append({"name": k.name, "ref": r.name if r is not None else "?",
+                                   "params": None if ip is None else [[str(a), str(b)] for a, b in ip.items()],
+                                   "attrs": attrs(k), "pins": rows})
+            defs.append(D)
+    t = nl._top_instance
+    return {"name": nl.name, "top": t._reference.name if t is not None and t._reference is not None else None, "defs": defs}
+
+
+def real_tokens(text):
+    from spydrnet.parsers.verilog.tokenizer import VerilogTokenizer
+    tk = VerilogTokenizer.from_string(text)
+    return list(tk.generator)
+
+
+def corr_lex(res, drv, text, what, inp):
+    """the Lean TokenFactory automaton against the real tokenizer, comments and directives included"""
+    try:
+        real = real_tokens(text)
+    except Exception as e:                                    # noqa: BLE001
+        real = "raise:" + fam(e)
+    o = drv.ask({"fn": "lex", "text": text})
+    if o.get("tokens") != real:
+        k = next((i for i, (a, b) in enumerate(zip(real, o.get("tokens", []))) if a != b), min(len(real), len(o.get("tokens", []))))
+        res.corr_mismatch("lexV vs VerilogTokenizer (" + what + ")", inp, {"at": k, "tokens": real[k:k + 3] if isinstance(real, list) else real},
+                          {"at": k, "tokens": o.get("tokens", [])[k:k + 3]})
+    res.dist("lexed:" + what)
+
+
+def corr_c04_text(res, drv, nl, combo_opts, text2, known_sig, inp):
+    """the whole written file, token by token: Lean composeV against the composer's output"""
+    dlist, wb, dp = combo_opts
+    o = drv.ask({"fn": "compose", "net": wnet_of(nl), "opts": {"defList": dlist, "writeBlackbox": wb, "defparam": dp},
+                 "text": text2 if text2 is not None else ""})
+    if "error" in o:
+        res.corr_mismatch("C04.composeV: driver understood the netlist", inp, None, o, signature=known_sig)
+        return
+    if text2 is None:
+        if o["ok"]:
+            res.corr_mismatch("C04.composeV vs sdn.compose (writer raises, model writes)", inp, "raise", o["text"][:300], signature=known_sig)
+        return
+    if not o["ok"]:
+        res.corr_mismatch("C04.composeV vs sdn.compose (model raises, writer writes)", inp, text2[:300], o["raise"], signature=known_sig)
+        return
+    if not o["finished"]:
+        res.corr_mismatch("C04.write_order_defined: fuel sufficed (finished = true)", inp, None, o["finished"])
+    if not o["same"]:
+        import verilog_view as V
+        sig = known_sig
+        if sig is None and any(not V.simple_identifier(t) and not t.startswith("\\") and "/" in t for t in (o["firstDiff"] or [0, "", ""])[1:] if isinstance(t, str)):
+            sig = K.SIG_C04_FLATNAME
+        res.corr_mismatch("C04.composeV vs sdn.compose (token stream)", inp, {"firstDiff": o["firstDiff"]}, None, signature=sig)
+    res.dist("files-compared-token-by-token")
+
+
 def corr_c04_order(res, drv, nl, inp):
     from spydrnet.composers.verilog.composer import Composer
     defs = [d for lib in nl.libraries for d in lib.definitions]
@@ -924,7 +1184,7 @@ def corr_c04_order(res, drv, nl, inp):
 
 def shard_c04(seed, idx, n_cases, deadline, tier):
     import verilog_view as V
-    res = ShardResult()
+    res = VShard()
     rng = random.Random(stable_hash(["verilog", "C04", seed, idx]))
     impl = Impl()
     drv = lean.Driver("drv_verilog")
@@ -959,19 +1219,44 @@ def shard_c04(seed, idx, n_cases, deadline, tier):
             if ext:
                 trig = [K.SIG_C04_CLONE] + trig
                 res.dist("clone:top-external")
+            texts = []
             for combo in combos:
                 rs = rng.randrange(1 << 30)
-                pr, _ = eval_c04(impl, nl, v1, combo, random.Random(rs))
+                hold = {}
+                pr, text2 = eval_c04(impl, nl, v1, combo, random.Random(rs), hold)
+                texts.append((hold.get("_last_opts"), text2, bool(pr) and pr[0][0].startswith("compose.raises")))
                 res.dist("options:%s:%s:%s" % (combo[0], "bb" if combo[1] else "nobb", "defparam" if combo[2] else "inline"))
                 if pr:
                     res.dist("P-failed")
-                    sigs = report_c04(res, impl, d, text, how, combo, rs, pr)
-                    known = sigs[0] if sigs else known
+                    seen = res.__dict__.setdefault("_seen", {})
+                    cheap = None
+                    if pr[0][0] == "reparse.raises.assert":
+                        # after one full attribution in this shard, the two transform-level findings are recognised
+                        # by their exact conditions (no re-attribution, no shrinking)
+                        if ext and seen.get(K.SIG_C04_CLONE):
+                            cheap = K.SIG_C04_CLONE
+                        elif how == "flatten" and seen.get(K.SIG_C04_FLATNAME) and unwritable_names(nl):
+                            cheap = K.SIG_C04_FLATNAME
+                    if cheap:
+                        res.spec_failure(cheap, dict(pack(d, text), transform=how, options=list(combo), rng=rs),
+                                         "; ".join("%s: %s" % p for p in pr[:2]))
+                        known = cheap
+                    else:
+                        sigs = report_c04(res, impl, d, text, how, combo, rs, pr)
+                        known = sigs[0] if sigs else known
                     break
             inp = dict(pack(d, text), transform=how)
-            corr_c04_writer(res, drv, impl, nl, v1, known or (trig[0] if trig else None), inp)
+            ksig = known or (trig[0] if trig else None)
+            corr_c04_writer(res, drv, impl, nl, v1, ksig, inp)
             if not ext:
                 corr_c04_order(res, drv, nl, inp)
+                for opts, text2, raised in texts:
+                    if opts is not None and (text2 is not None or raised):
+                        corr_c04_text(res, drv, nl, opts, text2, ksig, dict(inp, options=[opts[0], opts[1], opts[2]]))
+            corr_lex(res, drv, text, "generated text", inp)
+            for opts, text2, raised in texts[:1]:
+                if text2 is not None:
+                    corr_lex(res, drv, text2, "written text", inp)
     finally:
         drv.close()
         impl.close()
@@ -1002,7 +1287,7 @@ def bundled_texts(max_bytes):
 def shard_bundled_c04(seed, idx, files, deadline, tier):
     import verilog_view as V
     from common import canon
-    res = ShardResult()
+    res = VShard()
     rng = random.Random(stable_hash(["verilog", "bundled", seed, idx]))
     impl = Impl()
     drv = lean.Driver("drv_verilog")
@@ -1032,14 +1317,23 @@ def shard_bundled_c04(seed, idx, files, deadline, tier):
                 combos = [("none", True, False), ("none", False, True)] if tier == "quick" else OPTION_COMBOS[:4] + [("subset", True, True)]
                 for combo in combos:
                     rs = rng.randrange(1 << 30)
-                    pr, _ = eval_c04(impl, nl_t, v1, combo, random.Random(rs))
+                    hold = {}
+                    pr, text2 = eval_c04(impl, nl_t, v1, combo, random.Random(rs), hold)
+                    if how == "none" and text2 is not None and len(text) < 400_000:
+                        o3 = hold.get("_last_opts")
+                        corr_c04_text(res, drv, nl_t, o3, text2, None, dict(inp, options=[o3[0], o3[1], o3[2]]))
                     if pr:
-                        res.spec_failure(pr[0][0], dict(inp, transform=how, options=list(combo), rng=rs),
+                        sig = pr[0][0]
+                        if how == "clone" and top_external(nl_t):
+                            sig = K.SIG_C04_CLONE
+                        res.spec_failure(sig, dict(inp, transform=how, options=list(combo), rng=rs),
                                          "; ".join("%s: %s" % p for p in pr[:3]))
                         break
                 if how == "none":
                     corr_c04_writer(res, drv, impl, nl_t, v1, None, inp)
                     corr_c04_order(res, drv, nl_t, inp)
+                    if len(text) < 400_000:
+                        corr_lex(res, drv, text, "bundled text", inp)
     finally:
         drv.close()
         impl.close()
@@ -1047,13 +1341,18 @@ def shard_bundled_c04(seed, idx, files, deadline, tier):
 
 
 def shard_bundled_c06(seed, idx, files, deadline, tier):
+    """bundled files: the reader's netlist against the denotation obtained through the engine's independent
+    reader (verilog_indep); files outside that reader's subset: acceptance and well-formedness only"""
     import verilog_view as V
+    import verilog_indep as I
     from common import canon
-    res = ShardResult()
+    res = VShard()
     impl = Impl()
+    drv = lean.Driver("drv_verilog")
     try:
         for name, text in files:
             if time.time() > deadline:
+                res.dist("stopped-at-deadline")
                 break
             inp = {"kind": "bundled", "file": name}
             try:
@@ -1066,7 +1365,28 @@ def shard_bundled_c06(seed, idx, files, deadline, tier):
             wf = canon.wf_problems(nl) + V.wire_pin_consistency(nl)
             if wf:
                 res.spec_failure("sdn.parse.bundled.well-formed", inp, "; ".join(wf[:4]))
+            try:
+                design = I.parse_text(text)
+                den = G.denote(design)
+            except (I.Unsupported, AssertionError, KeyError) as e:
+                res.dist("bundled:outside-the-independent-reader's-subset")
+                continue
+            res.dist("bundled:denotation-compared")
+            v = V.view(nl)
+            pr = V.check_c06(den, v)
+            sig = None
+            if pr:
+                # counterfactual denotation per open finding: does the reader's netlist equal the denotation of the
+                # neutralised design?  (same text; only the reading of the text differs)
+                for s_, trig, neut in K.C06_KNOWN:
+                    if trig(design) and s_ == K.SIG_ASC and not V.check_c06(G.denote(neut(design)), v):
+                        sig = s_
+                res.spec_failure(sig or ("sdn.parse.bundled." + pr[0][0]), inp, "; ".join("%s: %s" % p for p in pr[:3]))
+            if len(text) <= (150_000 if tier == "quick" else 1_200_000):
+                corr_c06_elab(res, drv, design, v, None, sig or K.corr_sig_c06(design) or (K.SIG_ASC if K.has_asc(design) else None))
+                res.dist("bundled:elaborated-by-the-model")
     finally:
+        drv.close()
         impl.close()
     return res
 
@@ -1091,6 +1411,9 @@ def run_input(res, impl, pid, inp, drv=None):
             trig = [sig for (sig, t, _) in K.C06_KNOWN if t(design)]
             if v is not None and drv is not None:
                 corr_c06_connections(res, drv, design, v, known or (trig[0] if trig else None))
+            if drv is not None:
+                corr_c06_elab(res, drv, design, v, pr[0][0] if (pr and v is None) else None,
+                              known or (trig[0] if trig else None) or K.corr_sig_c06(design))
         else:
             how = inp.get("transform", "none")
             combos = [tuple(inp["options"])] if "options" in inp else OPTION_COMBOS
@@ -1135,7 +1458,7 @@ def run_input(res, impl, pid, inp, drv=None):
 
 
 def shard_corpus(pid, paths):
-    res = ShardResult()
+    res = VShard()
     impl = Impl()
     drv = lean.Driver("drv_verilog")
     try:
@@ -1165,7 +1488,7 @@ def run(ctx):
     if ctx.replay:
         with open(ctx.replay if os.path.isabs(ctx.replay) else os.path.join(ROOT, ctx.replay)) as f:
             j = json.load(f)
-        res = ShardResult()
+        res = VShard()
         impl = Impl()
         drv = lean.Driver("drv_verilog")
         try:
@@ -1184,7 +1507,8 @@ def run(ctx):
             drv.close()
             impl.close()
         ctx.merge_shard(res)
-        ctx.rule = "replay of one recorded input"
+        _describe(ctx)
+        ctx.rule = "replay of one recorded input (" + os.path.basename(ctx.replay) + "); normal runs: " + ctx.rule
         return
     deadline = time.time() + ctx.scale(70, 1000)
     corpus = sorted(glob.glob(os.path.join(ROOT, "corpus", pid, "*.json")))
@@ -1197,10 +1521,11 @@ def run(ctx):
         for i in range(nshards):
             args.append((shard_c06, (ctx.seed, i, per, deadline)))
         args.append((shard_blocks_reader, (ctx.seed, 0, ctx.scale(400, 8000), deadline)))
-        files = bundled_texts(ctx.scale(120_000, 4_000_000))
-        args.append((shard_bundled_c06, (ctx.seed, 0, files, deadline, ctx.tier)))
+        files = bundled_texts(ctx.scale(330_000, 4_000_000))
+        args.append((shard_bundled_c06, (ctx.seed, 0, files[0::2], deadline, ctx.tier)))
+        args.append((shard_bundled_c06, (ctx.seed, 1, files[1::2], deadline, ctx.tier)))
     else:
-        per = ctx.scale(40, 500)
+        per = ctx.scale(32, 500)
         for i in range(nshards):
             args.append((shard_c04, (ctx.seed, i, per, deadline, ctx.tier)))
         files = bundled_texts(ctx.scale(45_000, 1_500_000))
@@ -1208,6 +1533,25 @@ def run(ctx):
         args.append((shard_bundled_c04, (ctx.seed, 0, files[:half], deadline, ctx.tier)))
         args.append((shard_bundled_c04, (ctx.seed, 1, files[half:], deadline, ctx.tier)))
     run_shards(ctx, _dispatch, args)
+    if ctx.tier == "thorough":
+        lean.leanchecker(ctx, ["Spydr.Verilog.Props." + pid])
+    # contract step 3: a divergence (or a broken obligation) without a failing input -> search further
+    from common import findings
+    open_sigs = {k["signature"] for k in findings.load() if k["property"] == pid and k.get("status") == "open"}
+    diverged = [c for c in ctx.corr if c.get("signature") not in open_sigs] or [o for o in ctx.obligations if not o[1]]
+    new_spec = [x for x in ctx.spec if x["signature"] not in open_sigs]
+    if diverged and not new_spec and ctx.time_left() > 25:
+        dl2 = time.time() + min(ctx.time_left() - 15, ctx.scale(45, 500))
+        before = ctx.evaluations
+        extra = []
+        for (fn, a) in args:
+            if fn in (shard_c06, shard_blocks_reader):
+                extra.append((fn, (a[0] + 7919, a[1], a[2] * 3, dl2)))
+            elif fn is shard_c04:
+                extra.append((fn, (a[0] + 7919, a[1], a[2] * 3, dl2, a[4])))
+        run_shards(ctx, _dispatch, extra)
+        ctx.partial_notes.append("a divergence without a failing input triggered the failing-input search: %d extra cases"
+                                 % (ctx.evaluations - before))
     _describe(ctx)
 
 
@@ -1227,9 +1571,9 @@ def _describe(ctx):
             "positional port maps on never-declared modules are outside the generated domain (port names unknowable; the reader rejects >= 2 such connections and the writer cannot emit the unnamed port)",
             "alias header ports range over single-bit nets (documented limitation of the reader)",
             "ports are based at 0 and msb >= lsb (property's quantifier); nets are declared before use, implicit nets are scalar",
-            "bundled files: reader acceptance and well-formedness only (no independent denotation of 3rd-party text yet)",
+            "bundled files: denotation through the engine's independent reader (verilog_indep: no macro defined, Verilog-2001 semantics incl. ascending ranges); a file outside its subset (alias ports over selects) is checked for acceptance and well-formedness only",
         ]
-        ctx.partial_notes = [
+        ctx.partial_notes = ctx.partial_notes + [
             "module-level theorem verilog_reader_spec is not proved; proved: bit-level theorems for all inputs (getWires_spec, concat_spec, connect_low_aligned, resize_stable); the end-to-end statement is evaluated on the implementation for every generated design",
         ]
     else:
@@ -1241,6 +1585,6 @@ def _describe(ctx):
             "definitions that are not written (write_blackbox=False, definition_list subset) come back as inferred black boxes: only the connected pins of their instances are compared",
             "assign instances are compared as a multiset of (width, bits joined pin by pin); their generated names are not",
         ]
-        ctx.partial_notes = [
+        ctx.partial_notes = ctx.partial_notes + [
             "module-level theorem verilog_roundtrip is not proved; proved for all inputs: emit_eval (instance-connection round trip for every reader-shaped pin vector), decl_range_roundtrip, alias_header_roundtrip, assign_regen, write_order_defined (under finished = true, checked on every netlist)",
         ]
